@@ -23,6 +23,7 @@ import (
 
 	"github.com/grailbio/bigslice/zzverif/progen"
 	"github.com/grailbio/bigslice/zzverif/runner"
+	"github.com/grailbio/bigslice/zzverif/vgen"
 	"github.com/grailbio/bigslice/zzverif/vt"
 	"pgregory.net/rapid"
 )
@@ -163,9 +164,14 @@ func program(c Cell) (*progen.Spec, int) {
 }
 
 func sanityProgram() *progen.Spec {
+	// Exclusive tasks need every slot of the local executor / every proc of a machine: the follow-up
+	// run cannot complete if the failed run leaked any of them
+	src := progen.Node{Op: "readerfunc", Cols: []progen.Col{progen.TInt, progen.TInt}, NShard: 2, Exclusive: true,
+		ShardRows: [][][]int{{{1, 1}, {1, 2}, {2, 3}}, {{1, 4}, {2, 5}, {3, 6}}}, Script: []vgen.Chunk{{N: 2}}}
 	spec := &progen.Spec{Nodes: []progen.Node{
-		{Op: "const", Cols: []progen.Col{progen.TInt, progen.TInt}, NShard: 2, Rows: [][]int{{1, 1}, {1, 2}, {2, 3}, {1, 4}, {2, 5}, {3, 6}}},
-		{Op: "reduce", In: []int{0}, Fn: &progen.Fn{}},
+		src,
+		{Op: "map", In: []int{0}, Fn: &progen.Fn{Exprs: []progen.Expr{{K: "col", I: 0}, {K: "col", I: 1}}}, Exclusive: true},
+		{Op: "reduce", In: []int{1}, Fn: &progen.Fn{}},
 	}}
 	if err := progen.Annotate(spec); err != nil {
 		panic(err)
@@ -326,7 +332,7 @@ func judge(c Cell, out *Outcome, crashed bool, log string) (violation string, si
 			return fmt.Sprintf("the error returned for a persistent %s in %s does not carry the user's message: %s", c.Mode, c.Site, tail(errText, 1500)), "message-lost:" + c.Site + ":" + c.Mode + ":" + c.Cfg.Exec + mc(c), true
 		}
 	} else {
-		if c.Mode == "temp" && failed {
+		if (c.Mode == "temp" || c.Mode == "retriable") && failed {
 			return fmt.Sprintf("a temporary error in %s that went away on retry failed the run: %s", c.Site, tail(errText, 1500)), "transient-failed-run:" + c.Site + ":" + c.Cfg.Exec, true
 		}
 	}
@@ -456,9 +462,9 @@ func allCells() []Cell {
 		pos   []string
 	}
 	sites := []sm{
-		{"reader", []string{"error", "temp", "panic"}, []string{"first", "mid", "last", "eof"}},
-		{"writer", []string{"error", "temp", "panic"}, []string{"first", "mid", "last", "eof"}},
-		{"scan", []string{"error", "temp", "panic"}, []string{"first", "mid", "last", "eof"}},
+		{"reader", []string{"error", "temp", "retriable", "panic"}, []string{"first", "mid", "last", "eof"}},
+		{"writer", []string{"error", "temp", "retriable", "panic"}, []string{"first", "mid", "last", "eof"}},
+		{"scan", []string{"error", "temp", "retriable", "panic"}, []string{"first", "mid", "last", "eof"}},
 		{"map", []string{"panic"}, []string{"first", "mid", "last"}},
 		{"filter", []string{"panic"}, []string{"first", "mid", "last"}},
 		{"flatmap", []string{"panic"}, []string{"first", "mid", "last"}},
@@ -510,7 +516,7 @@ func TestVerifC06Matrix(t *testing.T) {
 		t.Skip()
 	}
 	rec := vt.New("C06", "failure-matrix",
-		"complete enumeration of the cross product call site {reader, writer, scan callback, map, filter, flatmap, fold, reduce combiner with keys repeated inside a shard, reduce combiner with keys shared only across shards, partitioner} x applicable failure modes {error, temporary error, panic, out-of-range partition} x {persistent, one-shot} x position {first row, row 128, last row, end-of-stream} x executor {local, bigmachine test system, bigmachine with machine combiners}; each cell runs in a disposable child process; oracle: persistent failure => non-nil error from Run/scan carrying the injected message for reader/writer errors and every panic, no hang (120 s), bounded re-invocation, driver process survives, never success with wrong rows; one-shot temporary failure => success with reference rows; a later run in the same session is correct; non-trivial = the injection fired; distinct by cell")
+		"complete enumeration of the cross product call site {reader, writer, scan callback, map, filter, flatmap, fold, reduce combiner with keys repeated inside a shard, reduce combiner with keys shared only across shards, partitioner} x applicable failure modes {error, temporary error (severity Temporary and severity Retriable), panic, out-of-range partition} x {persistent, one-shot} x position {first row, row 128, last row, end-of-stream} x executor {local, bigmachine test system, bigmachine with machine combiners}; each cell runs in a disposable child process; oracle: persistent failure => non-nil error from Run/scan carrying the injected message for reader/writer errors and every panic, no hang (120 s), bounded re-invocation, driver process survives, never success with wrong rows; one-shot temporary failure => success with reference rows; a later run in the same session (of Exclusive tasks, which need every execution slot, so that a slot leaked by the failed run wedges it) is correct; non-trivial = the injection fired; distinct by cell")
 	docs, only := vt.Replays(tMatrix)
 	seen := map[string]bool{}
 	if len(docs) > 0 {
